@@ -87,6 +87,42 @@ NEEDS = {
     "C19-2B": "the fill process is no longer killed: worker dies while the filler is blocked on the full queue (more entries than 3*n_workers)",
     "C20-2A": "HeavyHitters.load rewrites a non-.npz suffix: truncated file named X.part next to the complete X.npz",
     "C20-2B": "lru_cache in module-level load(): a path loaded successfully, then truncated in place, then loaded again",
+    "C01-3A": "shared-memory layout helper rounds the counters' offset DOWN: shared sketch with an odd table size - n_added overlays the last counters",
+    "C01-3B": "update() validates its batch with a first pass: a one-shot iterable is exhausted and silently dropped",
+    "C02-3A": "_add_ngram's seed narrowed to uint32: seed >= 2^32 together with the n-gram entry point",
+    "C02-3B": "HyperLogLog.update() iterates its argument twice: a one-shot iterable is dropped",
+    "C03-3A": "merge compares key_lens with itself: cells whose keys differ only in length / trailing NULs",
+    "C03-3B": "add_ngram adds a record whose length equals n twice (guard overlap)",
+    "C04-3A": "merge skips cells of the argument whose stored key length is 0: the key b'' in the argument",
+    "C04-3B": "prefix-only comparison/writes leave stale padding bytes: shorter key displaces a longer one, then merge with a clean copy of the short key",
+    "C05-3A": "shared-memory layout helper rounds down (as C01-3A): adds rewrite neighbouring counters / n_added on odd shared shapes",
+    "C06-3A": "CountMinLog8.add_ngram no longer stores the draw cursor",
+    "C06-3B": "log16 only: conservative update lifts only cells equal to the minimum (bulk add over a larger shared cell)",
+    "C07-3A": "alpha computed from the raw constructor argument: p passed as np.uint8/np.int16 overflows the shift",
+    "C07-3B": "HyperLogLog.update() drops one-shot iterables",
+    "C08-3A": "log16 keeps a tuple of kernel arguments built in the constructor: attach_existing_shm re-points only two attributes, adds through an attached worker are lost",
+    "C08-3B": "_fill_queue peeks at the first element: a one-shot iterator loses its first item",
+    "C09-3A": "reserved-range fast path decided from the tables' maxima with wrapping uint8 arithmetic: max(a)+max(b) in [256, 256+num_reserved]",
+    "C09-3B": "merge returns early when the argument's table is all zero: its n_records is lost",
+    "C10-3A": "HyperLogLog.load rejects a register equal to 64-p+1 (the legal maximum) as corrupt",
+    "C10-3B": "heavy-hitter save/load normalise the name with Path.with_suffix: names containing a dot without .npz collide",
+    "C12-3A": "fast path in _log_counter skips the (always successful) draw at counter == num_reserved for single adds but not inside a bulk add",
+    "C12-3B": "HeavyHitters.add_ngram clamps n to max_key_len",
+    "C13-3A": "candidate scan visits only cells with key_lens > 0: the key b'' is never reported",
+    "C13-3B": "k == 0 is treated like k = None: everything is returned",
+    "C14-3A": "power-of-two widths slice one 32-bit hash: log2(width)*depth > 32 (width 32 depth 7+, 64 depth 6+, 128 depth 5+)",
+    "C15-3A": "'nothing to merge' shortcut above the compatibility check: argument whose counters all cancelled to 0",
+    "C15-3B": "merge adopts min(phi) before the compatibility check: a refused merge changes the receiver's phi",
+    "C16-3A": "log16/log8 merge into a still-empty sketch rebinds the arrays (copy fast path): shared owner/view leaves the block",
+    "C16-3B": "HyperLogLog.load rebinds registers: load(shared_memory=True) leaves the block empty",
+    "C17-3A": "bias correction skipped while the raw estimate is below raw_estimate[0]: band just above the threshold",
+    "C17-3B": "uint16 per-rank tally: p = 16 with all 65536 registers equal",
+    "C18-3A": "division-free nearest-counter test: a log16 cell at 65535 merged with a zero cell wraps to 0",
+    "C18-3B": "HeavyHitters.update(dict) bypasses add()'s clamp: a single value >= 2^32",
+    "C19-3A": "error log takes str(exc).splitlines()[0]: an exception without a message kills the worker",
+    "C19-3B": "exit code -9 is excused as 'our own kill': a worker killed by SIGKILL goes unnoticed",
+    "C20-3A": "save() pre-allocates space for tables >= 1 MiB and never trims: trailing zeros after the archive",
+    "C20-3B": "log16 save writes a zip comment that only the log16 loader checks: log8 files load when cut inside the comment",
 }
 
 
@@ -100,11 +136,11 @@ def load(path):
 def r2_baseline():
     """Exit codes of the round-2 changes against the PREVIOUS version of the checks."""
     out = {}
-    for f in ("r2_before.log", "r2_before_b2.log"):
+    for f in ("r2_before.log", "r2_before_b2.log", "r3_before.log", "r3_before_b2.log"):
         p = os.path.join(VERIF_DIR, "seeded", f)
         if os.path.exists(p):
             for line in open(p):
-                m = re.match(r"(C\d+-2[AB]) (C\d+) exit=(\d+)", line)
+                m = re.match(r"(C\d+-[23][AB]) (C\d+) exit=(\d+)", line)
                 if m:
                     out[m.group(1)] = int(m.group(3))
     return out
